@@ -1,0 +1,11 @@
+//go:build verif
+// +build verif
+
+package sidecar
+
+import "time"
+
+// VerifSetClock replaces the clock used for the idle-since instant (verification hook, build tag "verif").
+func VerifSetClock(f func() time.Time) {
+	timeNow = f
+}
